@@ -1,7 +1,7 @@
 (* C06/Properties.v — property theorems only (each closed by [exact lemma] and followed by
    [Print Assumptions]).  Model: C06/Model.v (the code after fix commits 3a7f18b, 811f017, 2c8a29b). *)
 From Coq Require Import String Permutation Morphisms Sorted.
-From RM Require Import C06.Model C06.GenModel C06.Proofs C06.Proofs2 C06.Proofs3 C06.Proofs4 C06.Proofs5 C06.Proofs6 C06.Proofs7 C06.Proofs8 C06.Proofs9 C06.Proofs10 C06.Proofs11 C06.Driver C06.GenDriver Gen.UnwindConsts.
+From RM Require Import C06.Model C06.GenModel C06.Proofs C06.Proofs2 C06.Proofs3 C06.Proofs4 C06.Proofs5 C06.Proofs6 C06.Proofs7 C06.Proofs8 C06.Proofs9 C06.Proofs10 C06.Proofs11 C06.Proofs12 C06.Driver C06.GenDriver Gen.UnwindConsts.
 Open Scope Z_scope.
 
 (* No Panic and no OutOfFuel: for ALL rule texts (arbitrary byte strings), every walker (any
@@ -460,3 +460,29 @@ Print Assumptions c06_tokenizer_spec.
 Example c06_nonvacuous_tokenizer :
   split_ws [32; 0; 11; 200; 9; 12; 65; 13; 10] = [[0; 11; 200]; [65]].
 Proof. vm_compute. reflexivity. Qed.
+
+(* The real CfiStackWalker WITHOUT the non-aliasing hypothesis of c06_real_walker_refines_spec: the general-register
+   rules are applied in ascending register-name order (byte-lexicographic: the derived Ord of CfiReg, commit 3a7f18b),
+   and for every machine register c the LAST rule in that order whose target memoizes to c decides c: valid iff that
+   rule evaluates to a value that fits the register, and then holding that value; a register no rule names keeps
+   what set_cfa / set_ra / the callee forwarded.  (arm64 `x29: A fp: B`: "fp" < "x29", so x29's rule decides fp.) *)
+Theorem c06_real_alias_last_name_wins :
+  forall a p E cfa m2 s2,
+    all_other m2 ->
+    StronglySorted name_le (sort_rules m2) /\ Permutation (sort_rules m2) m2 /\
+    exists s3, apply_rules (real_ops a) p E cfa (sort_rules m2) s2 = Ret s3 /\
+      forall c,
+        match find_canon a c (rev (sort_rules m2)) with
+        | Some (n, e) => decided a p E cfa s3 c e
+        | None => r_ctx s3 c = r_ctx s2 c /\ r_valid s3 c = r_valid s2 c
+        end.
+Proof. exact real_alias_last_name_wins. Qed.
+Print Assumptions c06_real_alias_last_name_wins.
+
+Example c06_nonvacuous_alias_sorted :
+  match walk_with_stack_cfi (real_ops arm64) Debug null_env [bs ".cfa: 16 .ra: 8 x29: 111 fp: 222 lr: 5 x30: .undef"]
+                            (real_init arm64 [] None) with
+  | Ret (Some s) => r_ctx s (bs "fp") = 111 /\ r_valid s (bs "fp") = true /\ r_valid s (bs "lr") = false
+  | _ => False
+  end.
+Proof. vm_compute. repeat split; reflexivity. Qed.
